@@ -241,6 +241,36 @@ class World:
         else:
             self.model_attach(kind, ci, pi)
 
+    def do_refbounce(self, op):
+        """a block / proxy that some symbol refers to leaves its parent and comes
+        straight back (or is re-added while a member): nothing has changed
+        afterwards, whatever route was taken"""
+        refd = sorted({p for p in self.sym_pay.values() if p is not None and p[0] != "int"})
+        refd = [key for key in refd if self.par.get(key) is not None]
+        if not refd:
+            raise Skip()
+        kind, ci = refd[op.get("r", 0) % len(refd)]
+        pi = self.par[(kind, ci)]
+        child = self.obj(kind, ci)
+        coll = getattr(self.obj(PARENT_KIND[kind], pi), COLL_ATTR[kind])
+        route = op.get("route", 0) % 5
+        self.tags.append("referent-bounced:route%d" % route)
+        if route == 0:
+            setattr(child, PARENT_ATTR[kind], None)
+            setattr(child, PARENT_ATTR[kind], self.obj(PARENT_KIND[kind], pi))
+        elif route == 1:
+            coll.discard(child)
+            coll.add(child)
+        elif route == 2:
+            coll.update([child])  # re-adding a member
+        elif route == 3:
+            coll ^= _oset([child])
+            coll ^= _oset([child])
+        else:
+            coll.remove(child)
+            coll |= _oset([child])
+        # the model is where it was: detach + attach of the same pair
+
     def boom(self, objs, k):
         """an iterable that yields k objects and then fails: the injected fault
         of a "failed operation" (the built-in keeps what it consumed so far;
@@ -1151,6 +1181,8 @@ class World:
                 self.do_payload(op)
             elif name == "newsym":
                 self.do_newsym(op)
+            elif name == "refbounce":
+                self.do_refbounce(op)
             elif name == "setq":
                 self.do_setq(op)
             elif name == "listq":
